@@ -1,0 +1,284 @@
+//go:build verif
+
+package wallet
+
+// Contracts for properties C20, C06 and C09 (comment only).
+
+// ---------------------------------------------------------------------------
+// C20 — a rejected broadcast leaves no trace.
+//
+// Ghost log (declared in /verif/contracts/external/wallet_c20_c06_c09.spec):
+//   sentToBackend, backendErr  calls / last answer of chain.Interface.SendRawTransaction (trusted log)
+//   notifyCalls, notifyErr     calls / last answer of chain.Interface.NotifyReceived (trusted log)
+//   recorded                   calls of (*Wallet).addRelevantTx            (call counter, instrumentation)
+//   removedUnmined             calls of wtxmgr.(*Store).RemoveUnminedTx    (call counter)
+//   removalRuns                runs of the two removal transactions of publishTransaction (call counter)
+//   dbCommits                  walletdb.Update calls that returned nil     (success counter)
+//   recordedAtSend, commitsAtSend  values of recorded / dbCommits when the backend received the last send
+//@ macro HAVE_BACKEND(w) = old(w.chainClient) != nil
+//@ macro IN_MEMPOOL(e) = errIsConst(e, chain.ErrTxAlreadyInMempool)
+//@ macro KNOWN_OR_CONFIRMED(e) = (errIsConst(e, chain.ErrTxAlreadyKnown) || errIsConst(e, chain.ErrTxAlreadyConfirmed))
+
+// The removal transactions: RemoveUnminedTx is called exactly once unless the
+// record cannot even be built (then an error is returned).
+//@ func (*Wallet).publishTransaction$1(dbTx) (err)
+//@   property C20
+//@   opt callthrough
+//@   requires wf: w != nil && w.TxStore != nil
+//@   ensures calls_remove: removedUnmined == old(removedUnmined) + 1 || (err != nil && removedUnmined == old(removedUnmined))
+//@   ensures nothing_else: sentToBackend == old(sentToBackend) && recorded == old(recorded) && removalRuns == old(removalRuns)
+//@ func (*Wallet).publishTransaction$2(dbTx) (err)
+//@   property C20
+//@   opt callthrough
+//@   requires wf: w != nil && w.TxStore != nil
+//@   ensures calls_remove: removedUnmined == old(removedUnmined) + 1 || (err != nil && removedUnmined == old(removedUnmined))
+//@   ensures nothing_else: sentToBackend == old(sentToBackend) && recorded == old(recorded) && removalRuns == old(removalRuns)
+// the removal transaction run by reliablyPublishTransaction when the
+// notification subscription fails (same obligation as the two above)
+//@ func (*Wallet).reliablyPublishTransaction$2(dbTx) (err)
+//@   property C20
+//@   opt callthrough
+//@   requires wf: w != nil && w.TxStore != nil
+//@   ensures calls_remove: removedUnmined == old(removedUnmined) + 1
+//@   ensures nothing_else: sentToBackend == old(sentToBackend) && recorded == old(recorded) && removalRuns == old(removalRuns)
+
+// publishTransaction: classification of the backend's answer.
+//@ func (*Wallet).publishTransaction(w, tx) (h, err)
+//@   property C20
+//@   replay wallet_publish.go
+//@   requires wf: w != nil && w.TxStore != nil
+//@   ensures no_backend: !HAVE_BACKEND(w) ==> err != nil && sentToBackend == old(sentToBackend) && removalRuns == old(removalRuns) && removedUnmined == old(removedUnmined)
+//@   ensures sent_once: HAVE_BACKEND(w) ==> sentToBackend == old(sentToBackend) + 1
+//@   ensures accepted: HAVE_BACKEND(w) && backendErr == nil ==> err == nil && h != nil && removalRuns == old(removalRuns) && removedUnmined == old(removedUnmined)
+//@   ensures in_mempool_kept: HAVE_BACKEND(w) && backendErr != nil && IN_MEMPOOL(backendErr)
+//@       ==> err == nil && h != nil && removalRuns == old(removalRuns) && removedUnmined == old(removedUnmined)
+//@   ensures known_or_confirmed_removed: HAVE_BACKEND(w) && backendErr != nil && !IN_MEMPOOL(backendErr) && KNOWN_OR_CONFIRMED(backendErr)
+//@       ==> err == nil && h != nil && removalRuns == old(removalRuns) + 1
+//@   ensures rejected_removed_and_reported: HAVE_BACKEND(w) && backendErr != nil && !IN_MEMPOOL(backendErr) && !KNOWN_OR_CONFIRMED(backendErr)
+//@       ==> err == backendErr && h == nil && removalRuns == old(removalRuns) + 1
+//@   ensures error_is_backend_error: HAVE_BACKEND(w) && err != nil ==> err == backendErr
+//@   ensures removal_bounds: old(removedUnmined) <= removedUnmined && removedUnmined <= old(removedUnmined) + (removalRuns - old(removalRuns)) && removalRuns <= old(removalRuns) + 1
+//@   ensures commit_bounds: old(dbCommits) <= dbCommits && dbCommits <= old(dbCommits) + (removalRuns - old(removalRuns))
+//@   ensures removal_committed_removes: removalRuns == old(removalRuns) + 1 && dbCommits == old(dbCommits) + 1 ==> removedUnmined == old(removedUnmined) + 1
+//@   ensures records_nothing: recorded == old(recorded) && notifyCalls == old(notifyCalls)
+//@   ensures send_sees_state: HAVE_BACKEND(w) ==> recordedAtSend == old(recorded) && commitsAtSend == old(dbCommits)
+
+// The recording transaction of reliablyPublishTransaction: on success the
+// transaction was handed to addRelevantTx (once); nothing is sent or removed.
+//@ func (*Wallet).reliablyPublishTransaction$1(dbTx) (err)
+//@   property C20
+//@   opt callthrough
+//@   requires wf: w != nil && tx != nil && txRec != nil && w.Manager != nil && w.TxStore != nil
+//@   ensures recorded_on_success: err == nil ==> recorded == old(recorded) + 1
+//@   ensures recorded_at_most_once: old(recorded) <= recorded && recorded <= old(recorded) + 1
+//@   ensures no_broadcast: sentToBackend == old(sentToBackend) && notifyCalls == old(notifyCalls) && removalRuns == old(removalRuns) && dbCommits == old(dbCommits)
+
+// reliablyPublishTransaction: record (and commit) before the backend sees the
+// transaction; an error returned after a database transaction of this call
+// committed means the removal transaction was run.
+//@ func (*Wallet).reliablyPublishTransaction(w, tx, label) (h, err)
+//@   property C20
+//@   replay wallet_publish.go
+//@   requires wf: w != nil && tx != nil && w.Manager != nil && w.TxStore != nil
+//@   ensures recorded_before_broadcast: sentToBackend != old(sentToBackend)
+//@       ==> sentToBackend == old(sentToBackend) + 1 && recordedAtSend == old(recorded) + 1 && commitsAtSend == old(dbCommits) + 1
+//@   ensures notified_after_recording: notifyCalls != old(notifyCalls) ==> notifyCalls == old(notifyCalls) + 1 && recorded == old(recorded) + 1 && dbCommits >= old(dbCommits) + 1
+//@   ensures error_means_forgotten: err != nil && dbCommits > old(dbCommits) ==> removalRuns > old(removalRuns)
+//@   ensures rejected_means_removal_run: sentToBackend != old(sentToBackend) && backendErr != nil && !IN_MEMPOOL(backendErr) ==> removalRuns == old(removalRuns) + 1
+//@   ensures error_reported: sentToBackend != old(sentToBackend) && backendErr != nil && !IN_MEMPOOL(backendErr) && !KNOWN_OR_CONFIRMED(backendErr) ==> err == backendErr
+//@   ensures success_classes: err == nil ==> sentToBackend == old(sentToBackend) + 1 && (backendErr == nil || IN_MEMPOOL(backendErr) || KNOWN_OR_CONFIRMED(backendErr))
+//@   ensures kept_when_accepted: err == nil && (backendErr == nil || IN_MEMPOOL(backendErr)) ==> removalRuns == old(removalRuns) && recorded == old(recorded) + 1
+
+// resendUnminedTxs: every unconfirmed transaction read from the store is offered
+// to the backend, in slice order (= the dependency order of UnminedTxs, C14),
+// one send per element, continuing after a failed send.
+//@ okcounter viewsOk github.com/btcsuite/btcwallet/walletdb::View
+//@ func (*Wallet).resendUnminedTxs$1(tx) (err)
+//@   property C20
+//@   opt callthrough
+//@   requires wf: w != nil && w.TxStore != nil
+//@   ensures reads_only: sentToBackend == old(sentToBackend) && removalRuns == old(removalRuns) && recorded == old(recorded)
+//@ func (*Wallet).resendUnminedTxs(w)
+//@   property C20
+//@   requires wf: w != nil && w.TxStore != nil
+//@   ensures offers_every_unmined: HAVE_BACKEND(w) && viewsOk == old(viewsOk) + 1 ==> sentToBackend == old(sentToBackend) + len(txs)
+//@   ensures nothing_recorded: recorded == old(recorded)
+//@   invariant 1 one_send_each: (old(w.chainClient) != nil ==> sentToBackend == old(sentToBackend) + rangeindex + 1) && w.chainClient == old(w.chainClient) && recorded == old(recorded) && viewsOk == old(viewsOk) + 1 && rangeindex + 1 <= len(txs)
+
+// ---------------------------------------------------------------------------
+// C06 — created transactions spend only eligible coins, each once.
+//
+// CONFS = wallet.confirms (inlined in the code; restated here as the specification).
+//@ macro CONFS(h, cur) = ((h == 0 - 1 || h > cur) ? 0 : cur - h + 1)
+// what the caller-supplied filter says about a credit (uninterpreted)
+//@ spec func utxoAllowed(c wtxmgr.Credit) Bool
+// LOCKED: the outpoint is in the wallet's in-memory lock set
+//@ macro LOCKED(w, op) = (w.lockedOutpoints != nil && has(w.lockedOutpoints, op))
+// eligibleCredit: the six filters as one (opaque) predicate of a credit and the
+// request; script = the bytes of the credit's pkScript, locked = "the credit's outpoint is in w.lockedOutpoints".
+//@ spec opaque func eligibleCredit(c wtxmgr.Credit, script Bytes, noFilter Bool, minconf Int, cur Int, maturity Int, locked Bool, net Int, dbh [Int][Bytes]Bool, dbv [Int][Bytes]Bytes, account Int, anyScope Bool, scope waddrmgr.KeyScope) Bool =
+//@     (noFilter || utxoAllowed(c))
+//@     && CONFS(c.Height, cur) >= minconf
+//@     && (c.FromCoinBase ==> CONFS(c.Height, cur) >= maturity)
+//@     && !locked
+//@     && pkAddrOk(script, net) && pkAddrCount(script, net) == 1
+//@     && acctKnown(dbh, dbv, pkAddrKey0(script, net)) && acctOfKey(dbh, dbv, pkAddrKey0(script, net)) == account
+//@     && (anyScope || (scopePurposeOfKey(dbh, dbv, pkAddrKey0(script, net)) == scope.Purpose && scopeCoinOfKey(dbh, dbv, pkAddrKey0(script, net)) == scope.Coin))
+//@ macro ELIGIBLE(c, w, keyScope, account, minconf, curHeight, allowUtxo) = eligibleCredit(c, bytes(c.PkScript), allowUtxo == nil, minconf, curHeight,
+//@     w.chainParams.CoinbaseMaturity, LOCKED(w, c.OutPoint), w.chainParams, DBhas, DBval, account, keyScope == nil, deref(keyScope))
+
+//@ func (*Wallet).LockedOutpoint(w, op) (r)
+//@   property C06
+//@   requires wf: w != nil
+//@   ensures def: r == LOCKED(w, op)
+
+//@ func (*Wallet).findEligibleOutputs@allowUtxo(utxo) (r)
+//@   pure
+//@   ensures def: r == utxoAllowed(utxo)
+
+// findEligibleOutputs: every returned credit passed all six filters.
+//@ func (*Wallet).findEligibleOutputs(w, dbtx, keyScope, account, minconf, bs, allowUtxo) (r, err)
+//@   property C06
+//@   reveal eligibleCredit
+//@   requires wf: w != nil && w.Manager != nil && w.TxStore != nil && w.chainParams != nil && bs != nil && dbtx != nil
+//@   ensures all_eligible: err == nil ==> forall j Int :: {r[j]} 0 <= j && j < len(r) ==> ELIGIBLE(r[j], w, keyScope, account, minconf, bs.Height, allowUtxo)
+//@   ensures db_unchanged: DBhas == old(DBhas) && DBval == old(DBval)
+//@   invariant 1 all_eligible: forall j Int :: {eligible[j]} 0 <= j && j < len(eligible) ==> ELIGIBLE(eligible[j], w, keyScope, account, minconf, bs.Height, allowUtxo)
+//@   invariant 1 db_unchanged: DBhas == old(DBhas) && DBval == old(DBval)
+
+// An input source built from explicitly selected credits must not be handed
+// the same outpoint twice (the transaction would spend one output twice).
+//@ func constantInputSource(eligible) (src)
+//@   property C06
+//@   nobody
+//@   requires inputs_distinct: forall j Int, k Int :: {eligible[j], eligible[k]} 0 <= j && j < k && k < len(eligible) ==> eligible[j].OutPoint != eligible[k].OutPoint
+
+// The database transaction of txToOutputs. With explicitly selected inputs:
+// the outpoint index holds only credits returned by findEligibleOutputs, filed
+// under their own outpoint (loop 1); every credit handed to the input source
+// is the indexed (hence eligible) credit of the selected outpoint, and a
+// selection that is not eligible is refused (loop 2: nothing is appended for
+// it); pre.constantInputSource.inputs_distinct: no outpoint is used twice.
+//@ func (*Wallet).txToOutputs$1(dbtx) (err)
+//@   property C06
+//@   replay wallet_createtx.go
+//@   opt callthrough
+//@   requires held: w != nil && HELD(w)
+//@   ensures still_held: HELD(w)
+// a transaction that was signed is returned only after validateMsgTx accepted it (validation follows signing: one call each)
+//@   ensures signed_and_validated: err == nil && signCalls != old(signCalls) ==> signedOk == old(signedOk) + 1 && validatedOk == old(validatedOk) + 1 && validateCalls == old(validateCalls) + 1
+//@   ensures dry_run_never_signs: dryRun ==> signCalls == old(signCalls)
+//@   requires wf: w != nil && w.Manager != nil && w.TxStore != nil && w.chainParams != nil && bs != nil && chainClient != nil && dbtx != nil
+// domain of the C07 contract of txauthor.NewUnsignedTransaction (validated outputs, fee rate within range)
+//@   requires outs: len(outputs) <= 4000 && forall i Int :: {outputs[i]} 0 <= i && i < len(outputs) ==> outputs[i] != nil && 0 <= outputs[i].Value && outputs[i].Value <= 2100000000000000 && len(outputs[i].PkScript) <= 100000
+//@   requires rate: 1000 <= feeSatPerKb && feeSatPerKb <= 2147483648
+//@   invariant 1 index_from_eligible: forall k wire.OutPoint :: {eligibleByOutpoint[k]} eligibleByOutpoint != nil && has(eligibleByOutpoint, k)
+//@       ==> eligibleByOutpoint[k].OutPoint == k && (exists i Int :: 0 <= i && i < len(eligible) && eligible[i] == eligibleByOutpoint[k])
+//@   invariant 2 selected_count: len(eligibleSelectedUtxo) == rangeindex + 1 && rangeindex + 1 <= len(selectedUtxos)
+//@   invariant 2 selected_indexed: forall j Int :: {selectedUtxos[j]} 0 <= j && j < len(eligibleSelectedUtxo) ==> eligibleByOutpoint != nil && has(eligibleByOutpoint, selectedUtxos[j])
+//@   invariant 2 selected_outpoint: forall j Int :: {eligibleSelectedUtxo[j]} 0 <= j && j < len(eligibleSelectedUtxo) ==> eligibleSelectedUtxo[j].OutPoint == selectedUtxos[j]
+//@   invariant 2 selected_from_index: forall j Int :: {eligibleSelectedUtxo[j]} 0 <= j && j < len(eligibleSelectedUtxo) ==> eligibleSelectedUtxo[j] == eligibleByOutpoint[selectedUtxos[j]]
+
+// ---------------------------------------------------------------------------
+// C09 — the address-issuing critical section. HELD(w): the wallet's
+// newAddrMtx is held (ghost `held` of contracts/external/sync.spec).
+//
+// Code that issues addresses requires the mutex: newAddress, newChangeAddress
+// (the only functions of package wallet, with ImportAccountDryRun$1, that call
+// ScopedKeyManager.NextExternalAddresses / NextInternalAddresses), the change
+// script closure, and the database transactions of the six entry points. The
+// entry points are proved to hold the mutex when walletdb.Update starts
+// (pre.<closure>.held at the Update call) and still when it has returned
+// (still_held of the closure, then pre.Unlock.held at the unlock).
+//@ macro HELD(w) = select(held, addr(w.newAddrMtx))
+
+//@ func (*Wallet).newAddress(w, addrmgrNs, account, scope) (a, props, err)
+//@   property C09
+//@   requires held: w != nil && w.Manager != nil && HELD(w)
+//@   ensures still_held: HELD(w)
+//@ func (*Wallet).newChangeAddress(w, addrmgrNs, account, scope) (a, err)
+//@   property C09
+//@   requires held: w != nil && w.Manager != nil && HELD(w)
+//@   ensures still_held: HELD(w)
+
+// the change source handed to txauthor: its NewScript runs inside the
+// critical section of txToOutputs / FundPsbt (the call itself is made by
+// txauthor.NewUnsignedTransaction through the trusted field contract).
+//@ func (*Wallet).addrMgrWithChangeSource$1() (script, err)
+//@   property C09
+//@   requires held: w != nil && w.Manager != nil && changeKeyScope != nil && HELD(w)
+//@   ensures still_held: HELD(w)
+
+//@ func (*Wallet).NewAddress$1(tx) (err)
+//@   property C09
+//@   opt callthrough
+//@   requires held: w != nil && w.Manager != nil && HELD(w)
+//@   ensures still_held: HELD(w)
+//@ func (*Wallet).NewAddress(w, account, scope) (a, err)
+//@   property C09
+//@   requires wf: w != nil && w.Manager != nil && w.NtfnServer != nil
+//@   requires not_reentrant: !HELD(w)
+//@   ensures released: !HELD(w)
+
+//@ func (*Wallet).NewChangeAddress$1(tx) (err)
+//@   property C09
+//@   opt callthrough
+//@   requires held: w != nil && w.Manager != nil && HELD(w)
+//@   ensures still_held: HELD(w)
+//@ func (*Wallet).NewChangeAddress(w, account, scope) (a, err)
+//@   property C09
+//@   requires wf: w != nil && w.Manager != nil
+//@   requires not_reentrant: !HELD(w)
+//@   ensures released: !HELD(w)
+
+//@ func (*Wallet).CurrentAddress$1(tx) (err)
+//@   property C09
+//@   opt callthrough
+//@   requires held: w != nil && w.Manager != nil && HELD(w)
+//@   ensures still_held: HELD(w)
+//@ func (*Wallet).CurrentAddress(w, account, scope) (a, err)
+//@   property C09
+//@   requires wf: w != nil && w.Manager != nil && w.NtfnServer != nil
+//@   requires not_reentrant: !HELD(w)
+//@   ensures released: !HELD(w)
+
+// txToOutputs (C09 part): the mutex is taken before the database transaction
+// starts and released only after it has returned. The requires `outs`/`rate`
+// are the domain of the C07 contract of txauthor.NewUnsignedTransaction.
+//@ func (*Wallet).txToOutputs(w, outputs, coinSelectKeyScope, changeKeyScope, account, minconf, feeSatPerKb, strategy, dryRun, selectedUtxos, allowUtxo) (r, err)
+//@   property C09
+//@   requires wf: w != nil && w.Manager != nil && w.TxStore != nil && w.chainParams != nil
+//@   requires not_reentrant: !HELD(w)
+//@   requires outs: len(outputs) <= 4000 && forall i Int :: {outputs[i]} 0 <= i && i < len(outputs) ==> outputs[i] != nil && 0 <= outputs[i].Value && outputs[i].Value <= 2100000000000000 && len(outputs[i].PkScript) <= 100000
+//@   requires rate: 1000 <= feeSatPerKb && feeSatPerKb <= 2147483648
+//@   ensures released: !HELD(w)
+
+//@ func (*Wallet).FundPsbt$1(dbtx) (err)
+//@   property C09
+//@   opt callthrough
+//@   requires held: w != nil && w.Manager != nil && HELD(w)
+//@   ensures still_held: HELD(w)
+//@ func (*Wallet).FundPsbt(w, packet, keyScope, minConfs, account, feeSatPerKB, coinSelectionStrategy, optFuncs) (idx, err)
+//@   property C09
+//@   requires wf: w != nil && w.Manager != nil && packet != nil
+//@   requires not_reentrant: !HELD(w)
+//@   ensures released: !HELD(w)
+
+//@ func (*Wallet).ImportAccountDryRun$1(tx) (err)
+//@   property C09
+//@   opt callthrough
+//@   requires held: w != nil && w.Manager != nil && HELD(w)
+//@   ensures still_held: HELD(w)
+//@ func (*Wallet).ImportAccountDryRun(w, name, accountPubKey, masterKeyFingerprint, addrType, numAddrs) (props, ext, internal, err)
+//@   property C09
+//@   requires wf: w != nil && w.Manager != nil
+//@   requires not_reentrant: !HELD(w)
+//@   ensures released: !HELD(w)
+
+// validateMsgTx returns nil only after a script engine was created and executed
+// without error for every previous script (one per input, see
+// txauthor.TXPrevOutFetcher's length check, not under contract here).
+//@ func validateMsgTx(tx, prevScripts, inputValues) (err)
+//@   property C06
+//@   ensures all_inputs_verified: err == nil ==> execOk == old(execOk) + len(prevScripts) && enginesOk == old(enginesOk) + len(prevScripts)
+//@   invariant 1 verified_so_far: execOk == old(execOk) + rangeindex + 1 && enginesOk == old(enginesOk) + rangeindex + 1 && rangeindex + 1 <= len(prevScripts)
